@@ -99,17 +99,16 @@ theorem verifyLoopE_true_iff {σ : Type} (keys : List (Key σ)) (ba : BA) (sigs 
             simp only [Bool.not_true, Bool.false_eq_true, if_false, Bool.true_and]
             exact ih (i + 1) (si + 1) (by omega)
 
-/-- the loop can only end in a value or in the nil-key panic. -/
-theorem verifyLoopE_cases {σ : Type} (keys : List (Key σ)) (ba : BA) (sigs : List σ)
+/-- the loop always ends in a value (no panic branch is reachable). -/
+theorem verifyLoopE_ok {σ : Type} (keys : List (Key σ)) (ba : BA) (sigs : List σ)
     (rem i si : Nat) (hk : i + rem ≤ keys.length) :
-    (∃ b, verifyLoopE keys ba sigs rem i si = .ok b) ∨
-    (verifyLoopE keys ba sigs rem i si = .error .nilKey ∧ ∃ p, p < keys.length ∧ keys[p]? = some none ∧ ba.getIndex (p : Int) = true) := by
+    ∃ b, verifyLoopE keys ba sigs rem i si = .ok b := by
   induction rem generalizing i si with
-  | zero => exact .inl ⟨true, rfl⟩
+  | zero => exact ⟨true, rfl⟩
   | succ rem ih =>
     have hi : i < keys.length := by omega
     simp only [verifyLoopE, getIndexE_eq]
-    show (∃ b, (if ba.getIndex (i : Int) = true then _ else _) = _) ∨ ((if ba.getIndex (i : Int) = true then _ else _) = _ ∧ _)
+    show ∃ b, (if ba.getIndex (i : Int) = true then _ else _) = _
     cases hb : ba.getIndex (i : Int) with
     | false =>
       simp only [Bool.false_eq_true, if_false]
@@ -121,11 +120,11 @@ theorem verifyLoopE_cases {σ : Type} (keys : List (Key σ)) (ba : BA) (sigs : L
       · have hs' : si < sigs.length := by omega
         simp only [hs, if_false, List.getElem?_eq_getElem hs', List.getElem?_eq_getElem hi]
         cases hkey : keys[i] with
-        | none => exact .inr ⟨rfl, i, hi, by rw [List.getElem?_eq_getElem hi, hkey], hb⟩
+        | none => exact ⟨false, rfl⟩
         | some vf =>
           simp only []
           cases hv : vf sigs[si] with
-          | false => exact .inl ⟨false, by simp⟩
+          | false => exact ⟨false, by simp⟩
           | true =>
             simp only [Bool.not_true, Bool.false_eq_true, if_false]
             exact ih (i + 1) (si + 1) (by omega)
@@ -173,30 +172,38 @@ theorem verifyBytesE_true_iff {σ : Type} (k : UInt64) (keys : List (Key σ)) (d
   | none => simp [verifyBytesE, Accept]
   | some m =>
     simp only [verifyBytesE, Accept, Option.some.injEq, exists_eq_left']
-    by_cases hsz : (keys.length : Int) = m.ba.size
-    · rw [← hsz]
-      simp only [ne_eq, not_true_eq_false, if_false, Int.toNat_natCast, numTrueBitsBeforeE_eq,
-        numTrueBitsBefore_eq_marked, allMarkedValid_iff_pairsOK, marked_eq_markedFrom, true_and]
-      by_cases h1 : (m.sigs.length : Int) < kInt k ∨ (m.sigs.length : Int) > (keys.length : Int)
-      · simp only [h1, if_true]
-        constructor
-        · intro h; cases h
-        · rintro ⟨a, b, _⟩; omega
-      · simp only [h1, if_false]
-        show (if ((markedFrom m.ba 0 keys.length).length : Int) < kInt k then _ else _) = _ ↔ _
-        by_cases h2 : ((markedFrom m.ba 0 keys.length).length : Int) < kInt k
-        · simp only [h2, if_true]
+    by_cases hK : k.toNat = 0 ∨ k.toNat > keys.length
+    · simp only [hK, if_true]
+      constructor
+      · intro h; cases h
+      · rintro ⟨a, b, _⟩; omega
+    · simp only [hK, if_false]
+      have hK1 : 1 ≤ k.toNat := by omega
+      have hK2 : k.toNat ≤ keys.length := by omega
+      simp only [hK1, hK2, true_and]
+      by_cases hsz : (keys.length : Int) = m.ba.size
+      · rw [← hsz]
+        simp only [ne_eq, not_true_eq_false, if_false, Int.toNat_natCast, numTrueBitsBeforeE_eq,
+          numTrueBitsBefore_eq_marked, allMarkedValid_iff_pairsOK, marked_eq_markedFrom, true_and]
+        by_cases h1 : (m.sigs.length : Int) < kInt k ∨ (m.sigs.length : Int) > (keys.length : Int)
+        · simp only [h1, if_true]
           constructor
           · intro h; cases h
-          · rintro ⟨_, _, c, _⟩; omega
-        · simp only [h2, if_false]
-          rw [verifyLoopE_true_iff keys m.ba m.sigs keys.length 0 0 (by omega)]
-          constructor
-          · intro h; exact ⟨by omega, by omega, by omega, h⟩
-          · rintro ⟨_, _, _, h⟩; exact h
-    · have : ¬ m.ba.size = (keys.length : Int) := fun h => hsz h.symm
-      simp [hsz, this]
-
+          · rintro ⟨a, b, _⟩; omega
+        · simp only [h1, if_false]
+          show (if ((markedFrom m.ba 0 keys.length).length : Int) < kInt k then _ else _) = _ ↔ _
+          by_cases h2 : ((markedFrom m.ba 0 keys.length).length : Int) < kInt k
+          · simp only [h2, if_true]
+            constructor
+            · intro h; cases h
+            · rintro ⟨_, _, c, _⟩; omega
+          · simp only [h2, if_false]
+            rw [verifyLoopE_true_iff keys m.ba m.sigs keys.length 0 0 (by omega)]
+            constructor
+            · intro h; exact ⟨by omega, by omega, by omega, h⟩
+            · rintro ⟨_, _, _, h⟩; exact h
+      · have : ¬ m.ba.size = (keys.length : Int) := fun h => hsz h.symm
+        simp [hsz, this]
 
 /-! ## byte-level facts behind GetIndex / SetIndex -/
 
@@ -461,6 +468,10 @@ theorem getElem?_filterMap_eq {α β : Type} (f : α → Option β) (l : List α
 theorem kInt_small {k : UInt64} (hk : k.toNat < 2 ^ 63) : kInt k = (k.toNat : Int) := by
   simp [kInt, hk]
 
+/-- after the `K ≤ len(PubKeys)` check `int(pk.K)` is `K` (a Go slice length is an `int`). -/
+theorem kInt_of_le {k : UInt64} {n : Nat} (hn : n < 2 ^ 63) (hk : k.toNat ≤ n) : kInt k = (k.toNat : Int) :=
+  kInt_small (by omega)
+
 theorem marked_of_represents {σ : Type} {n : Nat} {m : MSig σ} {f : Nat → Option σ} (h : Represents n m f) :
     marked m.ba n = (List.range n).filter fun p => (f p).isSome := by
   simp only [marked]
@@ -502,18 +513,23 @@ theorem allMarkedValid_of_represents {σ : Type} {n : Nat} {m : MSig σ} {f : Na
     simpa using hs
 
 theorem verifyBytesE_of_represents {σ : Type} {n : Nat} {m : MSig σ} {f : Nat → Option σ}
-    (k : UInt64) (keys : List (Key σ)) (hn : keys.length = n) (h : Represents n m f) (hk : k.toNat < 2 ^ 63) :
+    (k : UInt64) (keys : List (Key σ)) (hn : keys.length = n) (h : Represents n m f) (hlen : n < 2 ^ 63) :
     verifyBytesE k keys (some m) = .ok true ↔
-      (k.toNat ≤ ((List.range n).filter fun p => (f p).isSome).length ∧
+      (1 ≤ k.toNat ∧ k.toNat ≤ ((List.range n).filter fun p => (f p).isSome).length ∧
         ∀ p, p < n → ∀ s, f p = some s → keyAccepts keys p s = true) := by
   rw [verifyBytesE_true_iff]
-  simp only [Accept, Option.some.injEq, exists_eq_left', hn, kInt_small hk, h.1.size, true_and,
+  simp only [Accept, Option.some.injEq, exists_eq_left', hn, h.1.size, true_and,
     allMarkedValid_of_represents keys h, sigs_length_of_represents h]
   rw [← marked_of_represents h]
   have := marked_length_le m.ba n
   constructor
-  · rintro ⟨a, b, c, d⟩; exact ⟨by omega, d⟩
-  · rintro ⟨a, d⟩; exact ⟨by omega, by omega, by omega, d⟩
+  · rintro ⟨a0, a1, a, b, c, d⟩
+    rw [kInt_of_le hlen a1] at c
+    exact ⟨a0, by omega, d⟩
+  · rintro ⟨a0, a, d⟩
+    have a1 : k.toNat ≤ n := by omega
+    rw [kInt_of_le hlen a1]
+    exact ⟨a0, a1, by omega, by omega, by omega, d⟩
 
 theorem assignAll_map {σ : Type} (sigOf : Nat → σ) (S : List Nat) (f : Nat → Option σ) (p : Nat) :
     assignAll f (S.map fun i => (i, sigOf i)) p = if p ∈ S then some (sigOf p) else f p := by
@@ -538,31 +554,28 @@ theorem distinct_count_nodup {n : Nat} {S : List Nat} (hS : S.Nodup) (hin : ∀ 
 
 /-! ## totality of VerifyBytes -/
 
-theorem verifyBytesE_cases {σ : Type} (k : UInt64) (keys : List (Key σ)) (dec : Option (MSig σ)) :
-    (∃ b, verifyBytesE k keys dec = .ok b) ∨
-    (verifyBytesE k keys dec = .error .nilKey ∧
-      ∃ m p, dec = some m ∧ p < keys.length ∧ keys[p]? = some none ∧ m.ba.getIndex (p : Int) = true) := by
+theorem verifyBytesE_ok {σ : Type} (k : UInt64) (keys : List (Key σ)) (dec : Option (MSig σ)) :
+    ∃ b, verifyBytesE k keys dec = .ok b := by
   cases dec with
-  | none => exact .inl ⟨false, rfl⟩
+  | none => exact ⟨false, rfl⟩
   | some m =>
     simp only [verifyBytesE]
-    by_cases hsz : (keys.length : Int) = m.ba.size
-    · rw [← hsz]
-      simp only [ne_eq, not_true_eq_false, if_false, Int.toNat_natCast, numTrueBitsBeforeE_eq]
-      by_cases h1 : (m.sigs.length : Int) < kInt k ∨ (m.sigs.length : Int) > (keys.length : Int)
-      · simp only [h1, if_true]; exact .inl ⟨false, rfl⟩
-      · simp only [h1, if_false]
-        show (∃ b, (if ((m.ba.numTrueBitsBefore (keys.length : Int) : Nat) : Int) < kInt k then _ else _) = _) ∨
-          ((if ((m.ba.numTrueBitsBefore (keys.length : Int) : Nat) : Int) < kInt k then _ else _) = _ ∧ _)
-        by_cases h2 : ((m.ba.numTrueBitsBefore (keys.length : Int) : Nat) : Int) < kInt k
-        · simp only [h2, if_true]; exact .inl ⟨false, rfl⟩
-        · simp only [h2, if_false]
-          rcases verifyLoopE_cases keys m.ba m.sigs keys.length 0 0 (by omega) with h | ⟨h, p, hp, hk, hg⟩
-          · exact .inl h
-          · exact .inr ⟨h, m, p, rfl, hp, hk, hg⟩
-    · have : ¬ m.ba.size = (keys.length : Int) := fun h => hsz h.symm
-      simp only [ne_eq, hsz, not_false_eq_true, if_true]
-      exact .inl ⟨false, rfl⟩
+    by_cases hK : k.toNat = 0 ∨ k.toNat > keys.length
+    · simp only [hK, if_true]; exact ⟨false, rfl⟩
+    · simp only [hK, if_false]
+      by_cases hsz : (keys.length : Int) = m.ba.size
+      · rw [← hsz]
+        simp only [ne_eq, not_true_eq_false, if_false, Int.toNat_natCast, numTrueBitsBeforeE_eq]
+        by_cases h1 : (m.sigs.length : Int) < kInt k ∨ (m.sigs.length : Int) > (keys.length : Int)
+        · simp only [h1, if_true]; exact ⟨false, rfl⟩
+        · simp only [h1, if_false]
+          show ∃ b, (if ((m.ba.numTrueBitsBefore (keys.length : Int) : Nat) : Int) < kInt k then _ else _) = _
+          by_cases h2 : ((m.ba.numTrueBitsBefore (keys.length : Int) : Nat) : Int) < kInt k
+          · simp only [h2, if_true]; exact ⟨false, rfl⟩
+          · simp only [h2, if_false]
+            exact verifyLoopE_ok keys m.ba m.sigs keys.length 0 0 (by omega)
+      · simp only [ne_eq, hsz, not_false_eq_true, if_true]
+        exact ⟨false, rfl⟩
 
 /-! ## the ante handler's gas consumer -/
 
